@@ -60,7 +60,9 @@ def sanitizersForAttributeValue (v : Validators) (c : Ctx) : Option (List String
     else if sc0 == .Style && c.attrValue != [] && !validateDoesNotEndWithCharRefPrefix c.attrValue then none
     else
       let sanitizer := sc0.sanitizerName
-      if !sc0.isURLorTRU then some (appendIfNotEmpty [fnHTML] sanitizer).reverse
+      if !sc0.isURLorTRU then
+        -- context None: stringify first, so that even a safehtml.HTML value is escaped inside the attribute
+        some (appendIfNotEmpty [fnHTML] (if sanitizer == "" then fnEvalArgs else sanitizer)).reverse
       else if c.attrValue == [] then
         some (appendIfNotEmpty (appendIfNotEmpty [fnHTML] fnNormalizeURL) sanitizer).reverse
       else if c.ambiguous then none
